@@ -13,7 +13,7 @@ import (
 
 func init() {
 	suites["sbloom"] = suite{
-		rule: "C37: the fake's clock is driven by the harness ('now t' lines). (1) script-level episodes (init/add/exists/reset scripts with arbitrary k, half, colliding indexes, clock steps around the lock expiry, Delete followed by add = RENAME error path) vs the Lean script model incl. raw state dumps; (2) end-to-end episodes: real NewSlidingBloomFilter/Add/AddMulti/Exists/ExistsMulti/Count/Reset/Delete against the fake, windows 1s..10s, clock steps biased to 0, half-1, half, half+1, server calls and answers vs the Lean glue+script model, further NewSlidingBloomFilter constructions for the same name on the populated server in between ('s.init <half>' lines answered by the real constructor's script call); '!exists' on every item whose last add is at most half a window old (judged by the specification); non-trivial = distinct op with a key or index",
+		rule: "C37: the fake's clock is driven by the harness ('now t' lines). (1) script-level episodes (init/add/exists/reset scripts with arbitrary k, half, colliding indexes, clock steps around the lock expiry, Delete followed by add = RENAME error path) vs the Lean script model incl. raw state dumps; (2) end-to-end episodes: real NewSlidingBloomFilter/Add/AddMulti/Exists/ExistsMulti/Count/Reset/Delete against the fake, windows 1s..10s, clock steps biased to 0, half-1, half, half+1, server calls and answers vs the Lean glue+script model, further NewSlidingBloomFilter constructions for the same name on the populated server in between ('s.init <half>' lines answered by the real constructor's script call); '!exists' on every item whose last add is at most half a window old (judged by the specification); size: AddMulti of 2500 and 1001 keys and ExistsMulti of 1501 / 650 keys (k=7) in ONE call, every item of the batch checked right after the add ('!exists' on items spread over the batch incl. its tail, per-position check of the multi answer), one filter with 1e8 expected items; gated overlapping calls on one filter value; non-trivial = distinct op with a key or index",
 		run:  runSBloom,
 		replay: func(c *Ctx, lines []string) {
 			ep := &sbfEp{}
@@ -348,7 +348,7 @@ func runSBloom(c *Ctx) {
 	cfgs := []struct {
 		n uint
 		r float64
-	}{{1, 0.9}, {2, 0.5}, {3, 0.3}, {5, 0.1}, {100, 0.9}, {20, 0.01}}
+	}{{1, 0.9}, {2, 0.5}, {3, 0.3}, {5, 0.1}, {100, 0.9}, {20, 0.01}, {100000000, 0.01}}
 	for epi := 0; epi < max(8, c.N/40); epi++ {
 		cf := cfgs[epi%len(cfgs)]
 		half := []int64{500, 501, 1000, 5000}[c.Rng.IntN(4)]
@@ -414,6 +414,47 @@ func runSBloom(c *Ctx) {
 			}
 		}
 		ep.op(c, "s.state")
+	}
+	// (4) large batches in one call: more than a thousand / a few thousand keys, sizes that are not
+	// multiples of round numbers; every item of the batch must be present right away
+	for bi, b := range []struct {
+		n        uint
+		r        float64
+		add, ask int
+	}{{4000, 0.5, 2500, 300}, {3000, 0.5, 1001, 1501}, {2000, 0.01, 50, 650}} {
+		half := int64(500)
+		now := int64(1_700_000_000_000 + c.Rng.IntN(100000))
+		probe, err := rueidisprob.NewSlidingBloomFilter(&fakeClient{srv: newFakeServer(func() int64 { return 0 })}, "bf", b.n, b.r, time.Second)
+		if err != nil {
+			continue
+		}
+		m, k, _ := rueidisprob.VerifParams(probe)
+		ep.op(c, fmt.Sprintf("reset %d %d %d ro=%d n=%d rate=%s now=%d", m, k, half, bi%2, b.n, rateBits(b.r), now))
+		c.Hit(fmt.Sprintf("big-batch:k=%d:add=%d:ask=%d", k, b.add, b.ask))
+		added := make([]item, b.add)
+		ws := make([]string, b.add)
+		for i := range added {
+			added[i] = mkItem(fmt.Sprintf("sbig%d-a%d", bi, i))
+			ws[i] = added[i].word()
+		}
+		ep.op(c, "add "+strings.Join(ws, " "))
+		now += 100
+		ep.op(c, fmt.Sprintf("now %d", now))
+		qs := make([]string, b.ask)
+		for i := range qs {
+			if i >= b.ask/3 && i%2 == 0 {
+				qs[i] = added[len(added)-1-c.Rng.IntN(len(added)/2)].word()
+			} else {
+				qs[i] = mkItem(fmt.Sprintf("sbig%d-q%d", bi, i)).word()
+			}
+		}
+		ep.op(c, "exists "+strings.Join(qs, " "))
+		ep.op(c, "count")
+		for j := 0; j < 6; j++ {
+			it := added[len(added)-1-j*(len(added)/8)]
+			ep.op(c, "!exists "+it.word())
+			ep.op(c, "exists "+it.word())
+		}
 	}
 	// (3) overlapping calls on one filter value (gated), same server time
 	for epi := 0; epi < max(4, c.N/150); epi++ {
